@@ -482,16 +482,24 @@ Definition step (cf : cfg) (s : state) (o : op) : state * out :=
 Definition run (cf : cfg) (s : state) (ops : list op) : state := fold_left (fun st o => fst (step cf st o)) ops s.
 
 (* ---------- helpers for the driver: run the mux's own goroutines until everything blocks ---------- *)
-Definition internal_round (cf : cfg) (watchers : bool) (s : state) : state :=
-  let s1 := fold_left (fun st k => fst (step cf (fst (step cf st (OAttach k))) (OPull k))) (cids s) s in
+(* [hold]: connections whose handleConn goroutine is parked by the harness between its lookup and
+   AddConn (a harness-owned logger blocks on AddConn's first log line, which precedes t.mu.Lock):
+   their OAttach is not run until the harness releases them *)
+Definition internal_round (cf : cfg) (watchers : bool) (hold : list nat) (s : state) : state :=
+  let s1 := fold_left (fun st k =>
+                         let st1 := if memb k hold then st else fst (step cf st (OAttach k)) in
+                         fst (step cf st1 (OPull k))) (cids s) s in
   let s2 := if watchers then fold_left (fun st q => fst (step cf st (OWatcher q))) (seq 0 (npc s1)) s1 else s1 in
   fst (step cf (fst (step cf s2 OAcceptExit)) OMuxCloseReturn).
 
-Fixpoint settle (cf : cfg) (watchers : bool) (fuel : nat) (s : state) : state :=
+Fixpoint settle (cf : cfg) (watchers : bool) (hold : list nat) (fuel : nat) (s : state) : state :=
   match fuel with
   | O => s
-  | S n => settle cf watchers n (internal_round cf watchers s)
+  | S n => settle cf watchers hold n (internal_round cf watchers hold s)
   end.
+
+Definition phase_routed (s : state) (k : nat) : bool :=
+  match c_phase (conn s k) with PRouted _ _ => true | _ => false end.
 
 (* the connections a ReadFrom on handle h could be served from (readers blocked on recvChan) *)
 Definition deliverable (s : state) (h : nat) : list nat :=
